@@ -116,6 +116,9 @@ def struct_templates():
     t.append("def test(a: Qint[2], b: Qint[2], c: Qint[2]) -> bool:\n    return a < b and b < c")
     t.append("def test(a: Qint[2]) -> Qint[4]:\n    return a * a")
     t.append("def test(a: Qint[2], b: Qint[2]) -> Qint[4]:\n    return (a + b) * 2")
+    # empty tuples inside tuples
+    t.append("def test(a: bool, b: bool) -> bool:\n    u = (a, (), b)\n    v = u\n    return v[2] and not v[0]")
+    t.append("def test(a: Qint[2], b: bool) -> Qint[2]:\n    u = ((), a, ((), b))\n    v = u\n    return v[1] + 1 if v[2][1] else v[1]")
     # one-element tuples copied by name
     t.append("def test(a: bool) -> bool:\n    t = (a,)\n    u = t\n    return u[0]")
     t.append("def test(a: bool, b: bool) -> bool:\n    t = (a ^ b,)\n    u = t\n    v = u\n    return v[0] and a")
